@@ -19,34 +19,34 @@ CHECKS = {
    text='All 1.1 million strings of length <= 6 over one representative per character class are given to the five validators twice (in both orders, so cross-validator caches show) and compared with recognisers written from the specification; the 255-byte boundary; every string of length <= 3 (4 thorough) in each of the 11 name-carrying constructor slots with the wire content re-read by the reference parser.',
    note='Character classes are represented by one member each; longer names only at the length boundary. Trusts mcx/ref/grammar.py.'),
  'C03': dict(engine=E1, ref='DESIGN.md 3/C03', technique='bounded-exhaustive enumeration of message descriptions; every message checked by an independent parser and re-parsed; foreign encodings enumerated over byte order, header-field permutations and unknown field positions',
-   text='All combinations of message type, optional header fields, flag bits, 30 bodies covering every alignment and every header padding 0..7 are constructed; an independent parser checks well-formedness (typed fields, flags byte, padding, body length, fresh serial) and parseMessage must recover everything, both from its own bytes and from the bytes a conforming foreign encoder produces (both byte orders, permuted fields, unknown field codes at every position). The 2**27 limit is probed with real messages at -1/0/+1/+8 bytes.',
+   text='All combinations of message type, optional header fields, flag bits, 30 bodies covering every alignment and every header padding 0..7 are constructed; an independent parser checks well-formedness (typed fields, flags byte, padding, body length, fresh serial) and parseMessage must recover everything, both from its own bytes and from the bytes a conforming foreign encoder produces (both byte orders, permuted fields, unknown field codes at every position); a parsed message serialised again must be the same well-formed message; every ordered triple of descriptor-carrying calls built in one process. The 2**27 limit is probed with real messages at -1/0/+1/+8 bytes for every header padding.',
    note='Bodies are a fixed list of 30 (the full value space is C01/C02). Trusts mcx/refcodec message encoder/parser.'),
  'C05': dict(engine=E1, ref='DESIGN.md 3/C05', technique='exhaustive mutation enumeration (truncations, byte substitutions, lying length words, all short hostile signatures) under a deterministic interpreter-step budget',
-   text='Every truncation, every position x substitution set, every aligned length word x lying values of 12 base messages, every string of length <= 4 (6 thorough) over the container alphabet as body signature and as variant signature against 6 hostile bodies, plus zero-size-element, deep-nesting and large lying-length families, are parsed by parseMessage and delivered to BasicDBusProtocol under a line-event budget affine in the input length; exceeding it, MemoryError, or a result larger than the input is a violation.',
+   text='Every truncation, every position x substitution set, every aligned length word x lying values of 12 base messages, every string of length <= 4 (6 thorough) over the container alphabet as body signature and as variant signature against 6 hostile bodies, plus zero-size-element, deep-nesting, sibling-container, back-reference / negative-length and large lying-length families (every element type), are parsed by parseMessage and delivered to BasicDBusProtocol under a line-event budget affine in the input length; exceeding it, MemoryError, or a result larger than the input is a violation.',
    note='Decides "bounded work" as "within 600000+100*len interpreter line events"; the constant covers the bracket matcher, which is quadratic in the (<=255 byte) signature. Which exception is raised is not compared.'),
  'C19': dict(engine=E1, ref='DESIGN.md 3/C19', technique='exhaustive enumeration of signatures from the grammar with their decomposition; exhaustive enumeration of Python values to depth 2 filtered by a reference claim predicate',
    text='Every signature sequence up to the node bound is generated together with its decomposition and compared with genCompleteTypes and the argument counts of Method/Signal; every Python value of depth <= 2, width <= 2 over 30 atoms (plain values and wrapper classes at range boundaries) inside the claim must get a single complete type, wrappers exactly theirs, and survive a variant round trip that the reference decoder can also read.',
    note='ref_type() in mcx/checks/c19.py states which values are inside the claim (first-element rule). Depth 3 only over a small pool (thorough).'),
  'C04': dict(engine=E2, ref='DESIGN.md 3/C04', technique='stateless exploration: exhaustive enumeration of read segmentations (cut sets up to a deviation bound) of enumerated message streams, each executed on a fresh real protocol object',
-   text='Every stream of 1-2 (and a slice of 3) messages from a pool mixing both byte orders, all four types and CR/LF-laden content is delivered under no cut, every single cut, byte-at-a-time and every pair of cuts near boundaries (anywhere, plus triples, when thorough); the same messages joined to the last handshake bytes for the server and both client roles; 3000 (20000) coalesced messages. The callback sequence must equal the sent sequence.',
+   text='Every stream of 1-2 (and a slice of 3) messages from a pool mixing both byte orders, all four types and CR/LF-laden content is delivered under no cut, every single cut, byte-at-a-time and every pair of cuts near boundaries (anywhere, plus triples, when thorough); the same messages joined to the last handshake bytes for the server and both client roles; two connections in one process with every interleaving of their (cut) reads; 3000 (20000) coalesced messages. The callback sequence must equal the sent sequence.',
    note='Bound: <= 2 cuts quick / 3 thorough; pool of 10 messages. Reads are non-empty chunks.'),
  'C06': dict(engine=E2, ref='DESIGN.md 3/C06', technique='explicit-state BFS to a fixpoint over authentication line sequences on the real server protocol, step-compared with a reference server state machine; enumerated real-mechanism conversations; differential cut enumeration',
-   text='For each effective mechanism script the full reachable state space of (protocol state, script position, rejection count) is explored over an alphabet of 14 lines + 4 malformed ones and every reply and the authenticated flag are compared with the specification state machine; the real EXTERNAL/COOKIE/ANONYMOUS mechanisms are driven by a conforming reference client with right, 7 wrong shapes of, and cancelled responses; first byte, 16 KiB limit, and every single cut of every 2-line (3 thorough) conversation must not change the transcript.',
+   text='For each effective mechanism script the full reachable state space of (protocol state, script position, rejection count) is explored over an alphabet of 14 lines + 4 malformed ones and every reply and the authenticated flag are compared with the specification state machine; the real EXTERNAL/COOKIE/ANONYMOUS mechanisms are driven by a conforming reference client with right, 7 wrong shapes of, and cancelled responses; 2-3 connections running cookie exchanges against one keyring with all interleavings of their steps (explicit-state); first byte, 16 KiB limit, and every single cut of every 2-line (3 thorough) conversation must not change the transcript.',
    note='Peer credentials come from a fake socket; user lookups use the real pwd database; keyring in a scratch directory.'),
  'C07': dict(engine=E2, ref='DESIGN.md 3/C07', technique='explicit-state BFS to a fixpoint over server line sequences on the real client protocol with constraint oracles S1-S5; exhaustive handshakes against a reference server under every single cut',
-   text='The complete reachable state space of the client authenticator under 14 server lines x {UNIX, non-UNIX} is explored and every step checked against: BEGIN/binary only after a valid OK and an answered descriptor negotiation, AUTH lines a prefix of the preference order, next mechanism or close after REJECTED/ERROR, close on lines outside the protocol, no stall. 84 reference-server configurations (mechanism subsets x negotiation answers x EXTERNAL variants x transports) must complete, also with each server line cut at every position.',
+   text='The complete reachable state space of the client authenticator under 14 server lines x {UNIX, non-UNIX} is explored and every step checked against: BEGIN/binary only after a valid OK and an answered descriptor negotiation, AUTH lines a prefix of the preference order, next mechanism or close after REJECTED/ERROR, a new AUTH only after REJECTED/ERROR, close on lines outside the protocol, no stall; every line sequence up to length 2 (3) delivered coalesced and byte-wise must behave as line by line. 84 reference-server configurations (mechanism subsets x negotiation answers x EXTERNAL variants x transports) must complete, also with each server line cut at every position, with a stale cookie id, and over consecutive connections with a rotated cookie.',
    note='~/.dbus-keyrings is redirected to a scratch keyring by wrapping the os module seen by txdbus.authentication; os.urandom is fixed.'),
  'C08': dict(engine=E2, ref='DESIGN.md 3/C08', technique='explicit-state BFS with deduplication over interleavings of issue/reply/error/expiry/unsolicited/loss events on a real client connection with a virtual clock, against a reference call table',
    text='For 8 (10 thorough) call configurations (deadline order, declared return signature, reply and error shapes, no-reply calls) every interleaving of the events of 2-3 (4 thorough) concurrent calls is explored; after every event each Deferred must have fired exactly as the reference table says, the armed timers must equal the outstanding deadlines, and running the clock out plus late replies must change nothing.',
    note='Calls are issued in index order. Replies are real bytes through dataReceived.'),
  'C09': dict(engine=E2, ref='DESIGN.md 3/C09', technique='crash-point enumeration of connect() on a memory reactor; explicit-state BFS over calls/callbacks/proxies with connection loss injected in every reachable state',
-   text='Every address list up to 3 entries x every reachability vector x the transport closing after each server step of three conversation variants: attempt order and exactly-once firing of the connect Deferred. For an established connection, all orders (to depth 4 for the full alphabet; to the fixpoint for the proxy and the call/callback sub-alphabets) of calls with/without deadlines, callback registration/cancellation, explicit/known-name/introspected proxies (two for one object, dropped ones) followed by the loss in every state.',
+   text='Every address list up to 3 entries x every reachability vector x the transport closing after each server step of three conversation variants: attempt order and exactly-once firing of the connect Deferred; every list connected to twice with one reactor. For an established connection, all orders (to depth 4 for the full alphabet; to the fixpoint for the proxy and the call/callback sub-alphabets) of calls with/without deadlines, callback registration/cancellation, explicit/known-name/introspected proxies (two for one object, dropped ones) followed by the loss in every state.',
    note='Loss arrives as connectionLost(ConnectionDone); a dropped proxy is not live.'),
  'C13': dict(engine=E2, ref='DESIGN.md 3/C13', technique='explicit-state BFS to a fixpoint on a real Bus with scripted raw clients, step-compared with a reference name table, table read back through the bus after every step',
-   text='All histories of RequestName (8 flag values), ReleaseName and disconnect by 3 clients on 1 name are explored to the fixpoint (and 2 clients x 2 names to depth 4; 4 clients / 3 clients x 2 names when thorough); after every step the reply code, the NameAcquired recipients and GetNameOwner / ListQueuedOwners for every name are compared with the reference table.',
+   text='(state = reference table + digest of every library object) All histories of RequestName (8 flag values), ReleaseName and disconnect by 3 clients on 1 name are explored to the fixpoint (and 2 clients x 2 names to depth 4; 4 clients / 3 clients x 2 names when thorough); after every step the reply code, the NameAcquired recipients and GetNameOwner / ListQueuedOwners for every name are compared with the reference table.',
    note='Where a replaced owner goes is left open (adopted from the bus); NameLost / NameOwnerChanged not compared.'),
  'C20': dict(engine=E2, ref='DESIGN.md 3/C20', technique='stateless exploration: exhaustive enumeration of interleavings of descriptor arrivals and reads (under cut sets) on the real receiver; exhaustive call sequences on the real sender',
-   text='Every sequence of up to 3 calls over 9 bodies is sent through callRemote and the transport log compared (descriptors in argument order ahead of the bytes, declared count, indexes). The same sequences, reference-encoded in both byte orders, are delivered under no cut / every single cut (pairs when thorough) in every order of descriptor arrivals and reads a stream socket allows; a trailing probe message shows exactly the declared count was consumed.',
+   text='Every sequence of up to 3 calls over 9 bodies is sent through callRemote and the transport log compared (descriptors in argument order ahead of the bytes, declared count, indexes). The same sequences, reference-encoded in both byte orders, are delivered under no cut / every single cut (pairs when thorough) (as calls and as returns / signals / errors) in every order of descriptor arrivals and reads a stream socket allows; a trailing probe message shows exactly the declared count was consumed.',
    note='Descriptors are plain integers on a fake transport; arrival model is the statement\'s.'),
  'C10': dict(engine=E2, ref='DESIGN.md 3/C10', technique='bounded-exhaustive enumeration of call histories (every ordered pair from a call pool, 4 export orders) on freshly built object classes; enumerated firing orders of held Deferreds; reference dispatcher',
    text='A pool of several hundred incoming calls (right/wrong path, interface, member, signature, reply flag; dbus_ and decorator bindings, one member on two interfaces, base/derived classes binding members of one interface, dbusCaller) is delivered as real bytes: every single call under 4 export orders and every ordered pair; replies are parsed by the reference parser and compared with a reference dispatcher (who runs, how often, reply count, addressing, serial, encoding, error names). Two held Deferreds are fired in both orders with value / failure / unencodable value.',
@@ -58,16 +58,16 @@ CHECKS = {
    text='Every rule with up to 3 (all 9 thorough) constraint keys, two values each, against ~1500 messages through the real router; BFS over addMatch/delMatch/signal histories on a real client connection (callbacks that raise, id reuse); the AddMatch text of every rule with up to 2 (3) keys parsed independently and fed to the built-in bus whose broadcasts must follow the matcher; proxy notifyOnSignal/cancelSignalNotification with matching and mismatching signatures.',
    note='sender / arg0namespace constraints are outside the statement.'),
  'C14': dict(engine=E2, ref='DESIGN.md 3/C14', technique='explicit-state BFS over send / consume (whole or prefix) / name-takeover / match-rule / disconnect events on a real Bus with scripted raw clients against a reference bus',
-   text='Three raw clients; 12 message templates (all types, every destination kind, forged / true / absent sender, flag bits); outbound queues let the bus consume messages in every order relative to ownership changes, rule changes and a disconnect, whole or prefix-first. Every arriving message is parsed by the strict reference parser and compared with the reference bus. A second search covers connect/disconnect histories for fresh unique names.',
+   text='Three raw clients (state = reference bus + digest of every library object); name take-over, queueing and release; 12 message templates (all types, every destination kind, forged / true / absent sender, flag bits); outbound queues let the bus consume messages in every order relative to ownership changes, rule changes and a disconnect, whole or prefix-first. Every arriving message is parsed by the strict reference parser and compared with the reference bus. A second search covers connect/disconnect histories for fresh unique names.',
    note='Depth 4 quick / 6 thorough; >= 1 copy demanded for broadcasts.'),
  'C15': dict(engine=E1, ref='DESIGN.md 3/C15', technique='bounded-exhaustive enumeration of interface definitions; XML checked by an independent parser and the reference signature splitter; parse-back comparison; proxy acceptance',
-   text='Every (in, out) pair of a pool of 40 (more thorough) signature sequences as a method, every signal, every property type x access x notification, fuller interfaces, and objects with 2-3 interfaces in every order x every subset registered locally x replace flag.',
+   text='Every (in, out) pair of a pool of 40 (more thorough) signature sequences as a method, every signal, every property type x access x notification, fuller interfaces, and objects with 2-3 interfaces in every order x every subset registered locally x replace flag (each parsed repeatedly in one process, registry checked), and definitions built incrementally (add / re-declare / delete) with the XML read after every step.',
    note='Notification mode after parsing not compared.'),
  'C16': dict(engine=E2, ref='DESIGN.md 3/C16', technique='explicit-state BFS over export/unexport histories (all 128 exported sets reached; plus undeduplicated histories), every path queried after every step',
    text='After every export/unexport over a 7-path universe with prefix-sharing siblings, each path and two outsiders are queried with real call bytes (ordinary call, Introspect, GetManagedObjects) and compared with the set-theoretic reference; each event must announce itself with exactly one InterfacesAdded/Removed.',
    note='Export only of unexported paths, unexport only of exported ones.'),
  'C17': dict(engine=E2, ref='DESIGN.md 3/C17', technique='explicit-state BFS over local assignments and remote Set calls on two objects (base/derived, same-named property on two interfaces), full read-back through Get/GetAll after every step against a reference store',
-   text='11 property declarations over 3 interfaces; every assignment and every Set (right / empty / other interface name, unknown property) to depth 2 (3), both class initialisation orders; after every event the Set reply, the PropertiesChanged signals and the whole table read back through GetAll and Get under right / empty / unknown interface names.',
+   text='12 property declarations over 3 interfaces on three objects (two instances of the base class, one read before assigned, and a derived one); values include foreign typed wrappers; every assignment and every Set (right / empty / other interface name, unknown property) to depth 2 (3), both class initialisation orders; after every event the Set reply, the PropertiesChanged signals and the whole table read back through GetAll and Get under right / empty / unknown interface names.',
    note='Ambiguous empty-interface access may choose either declaration; wrongly typed Sets are outside the statement.'),
 }
 
